@@ -358,3 +358,26 @@ MORE9 = {
 }
 for _k, _v in MORE9.items():
     MORE[_k] = (MORE[_k] + ' ' if _k in MORE else '') + _v
+
+
+MORE10 = {
+    'C01': 'R01.24 constructors accept null values; R01.25 difflib only for asserted strings.',
+    'C02': 'R02.26 constructors do not test the value; R02.27 as R01.25; R02.28 no id() keys.',
+    'C03': 'R03.31 decisions about two-sided insertions are dominated by their comparison; R03.32 no wait() on a piped tool.',
+    'C04': 'R04.14 a side\'s sub-diff is not filtered before it is merged.',
+    'C05': 'R05.16 the action "either" only for diffs asserted equal; R05.17 split_string_path tabulated over 18 (document, path) pairs.',
+    'C06': 'R06.3 nothing after the decision loop of apply_decisions (C15 R15.11).',
+    'C17': 'R17.19 nothing on the git-listing path writes module-level state (C12 R12.1).',
+    'C07': 'R07.18 no line filter in the merge renderers; R07.19 affix trims do not overlap.',
+    'C10': 'R10.12 conflicts on a key carry the key\'s strategy; R10.13 nothing modifies the decisions after the strategies ran; R10.14 star_path tabulated.',
+    'C12': 'R12.18 memoised results are not modified; R12.19 no class-body container grown through self; R12.20 no id() keys.',
+    'C14': 'R14.22 star_path tabulated (keys of the differ / ignore tables).',
+    'C13': 'R13.1 knows third-party in-place normalisers (rejoin_lines, split_lines, strip_transient, upgrade, ...).',
+    'C15': 'R15.13 no array spread into call arguments in the TypeScript patch functions; R15.14 applyDecisions compares paths element-wise.',
+    'C16': 'R16.24 no fixed element of a split text in the renderers.',
+    'C18': 'R18.15 every exit of disable() passed a git-config call.',
+    'C19': 'R19.3 follows a one-line wrapper of the search path and rejects modifying a memoised list.',
+    'C20': 'R20.18 every answer of the diff / merge endpoint is dominated by the library call.',
+}
+for _k, _v in MORE10.items():
+    MORE[_k] = (MORE[_k] + ' ' if _k in MORE else '') + _v
